@@ -56,15 +56,15 @@ HELPERS = {"delta": h_delta, "tot": h_tot, "busy": h_busy, "deltas": h_deltas, "
 def setup_two(it, cfg):
     cls = scputimes_cls(cfg["n"])
     it.env_over["_pslinux.scputimes"] = cls
-    t1 = fresh_nt(it, cls, "t1")
-    t2 = fresh_nt(it, cls, "t2")
+    t1 = fresh_nt(it, cls, "t1", nonneg=True)
+    t2 = fresh_nt(it, cls, "t2", nonneg=True)
     return {"args": {"t1": t1, "t2": t2}, "spec": {"n": cfg["n"]}, "values": values_of(t1, t2)}
 
 
 def setup_one(it, cfg):
     cls = scputimes_cls(cfg["n"])
     it.env_over["_pslinux.scputimes"] = cls
-    t = fresh_nt(it, cls, "times")
+    t = fresh_nt(it, cls, "times", nonneg=True)
     return {"args": {"times": t}, "spec": {"n": cfg["n"]}, "values": values_of(t)}
 
 
